@@ -134,7 +134,7 @@ def check_payloads(ctx, fx, cfg, RULE):
                     if t.get("trait") == loops.T_H and (t.get("callee") or "").endswith("::handle"):
                         hs.append((g, gb, t))
             inst = "payload:%s@%s" % (pc["def"], cfg)
-            is_ping = "::ping::" in pc["def"]
+            is_ping = "::ping::" in pc["def"] or loops.is_ping_payload(fx, pc["def"])
             if is_ping:
                 ctx.require(not hs, RULE, inst, "ping must not run a handler", fn=pc["def"], site=pc["loc"])
                 continue
